@@ -338,6 +338,7 @@ thread_local! {
     static PANIC_IN_RUN: RefCell<bool> = RefCell::new(false);
 }
 pub const UNWIND: u8 = 0x10;
+pub const HOLD: u8 = 0x20;
 
 fn stash_and_panic(cls: Vec<u8>) -> ! {
     LAST_ALIVE.with(|l| *l.borrow_mut() = Some(cls));
@@ -363,8 +364,89 @@ pub fn fetch_of<'a, T: SystemData<'a>>(w: &'a World, via: u8, ids: &[ResourceId]
         // the value is alive here: it is dropped by the unwinding of this frame
         stash_and_panic(cls);
     }
+    if via & HOLD != 0 {
+        // read storm: keep the data across two further fetches of the same type
+        let d2: T = T::fetch(w);
+        let d3: T = w.system_data::<T>();
+        drop(d2);
+        drop(d3);
+    }
     drop(d);
     cls
+}
+
+/// Read-only storm (multi-threaded): `threads` threads - std threads and, with the `parallel` feature,
+/// rayon workers - fetch the SAME read-only type from one shared `&World` (every resource present,
+/// nobody holds an exclusive borrow) for `ms` milliseconds through `T::fetch`, `World::system_data`,
+/// `RunNow::run_now` of the per-case system, partly holding the data across further fetches.  A declared
+/// READ takes a SHARED borrow, so every one of these fetches must succeed; each is run under
+/// catch_unwind and failures are only counted (no cell is probed here: a probe is an exclusive attempt).
+pub fn storm(ops: &Ops, d: &CaseDesc, slots: &[&'static Slot], ms: u64, ev: &mut Vec<Value>, st: &mut Stats) {
+    use std::sync::atomic::{AtomicU64, Ordering};
+    let vals: Vec<u32> = (0..slots.len()).map(|i| 1 + i as u32).collect();
+    let w = mk_world(slots, &vals);
+    let n_ops = AtomicU64::new(0);
+    let n_fail = AtomicU64::new(0);
+    let first: std::sync::Mutex<Option<String>> = std::sync::Mutex::new(None);
+    let deadline = std::time::Instant::now() + std::time::Duration::from_millis(ms);
+    let worker = |t: usize| {
+        let mut k = t;
+        let (mut done, mut fail) = (0u64, 0u64);
+        loop {
+            for _ in 0..8 {
+                k += 1;
+                let r = catch_unwind(AssertUnwindSafe(|| match k % 4 {
+                    0 => drop((ops.fetch)(&w, 0, &[])),
+                    1 => drop((ops.fetch)(&w, 1, &[])),
+                    2 => drop((ops.sys_run)(&w, &[])),
+                    _ => drop((ops.fetch)(&w, if t % 2 == 0 { HOLD } else { 2 | HOLD }, &[])),
+                }));
+                done += 1;
+                if let Err(p) = r {
+                    fail += 1;
+                    let mut g = first.lock().unwrap_or_else(|e| e.into_inner());
+                    if g.is_none() {
+                        *g = Some(panic_text(p).chars().take(160).collect());
+                    }
+                }
+            }
+            if std::time::Instant::now() >= deadline {
+                break;
+            }
+        }
+        n_ops.fetch_add(done, Ordering::Relaxed);
+        n_fail.fetch_add(fail, Ordering::Relaxed);
+    };
+    let n_std = 4usize;
+    #[cfg(feature = "parallel")]
+    let n_rayon = 3usize;
+    #[cfg(not(feature = "parallel"))]
+    let n_rayon = 0usize;
+    std::thread::scope(|sc| {
+        for t in 0..n_std {
+            let worker = &worker;
+            sc.spawn(move || worker(t));
+        }
+        #[cfg(feature = "parallel")]
+        {
+            let worker = &worker;
+            sc.spawn(move || {
+                let pool = rayon::ThreadPoolBuilder::new().num_threads(n_rayon).build().expect("pool");
+                pool.scope(|rs| {
+                    for t in 0..n_rayon {
+                        rs.spawn(move |_| worker(n_std + t));
+                    }
+                });
+            });
+        }
+    });
+    let (o, f) = (n_ops.load(Ordering::Relaxed), n_fail.load(Ordering::Relaxed));
+    st.storm_blocks += 1;
+    st.storm_ops += o as usize;
+    st.storm_fail += f as usize;
+    let msg = first.into_inner().unwrap_or_else(|e| e.into_inner()).unwrap_or_default();
+    ev.push(json!({"ev":"storm","case":d.id,"threads":n_std + n_rayon,"rayon":n_rayon,"ms":ms,
+                   "ops": o.min(2_000_000_000), "fail": f.min(2_000_000_000), "msg": msg}));
 }
 
 pub fn setup_of<'a, T: SystemData<'a>>(w: &mut World, via: u8) {
@@ -530,6 +612,9 @@ pub struct CaseDesc {
     /// Default::default() of the resource's type panics
     #[serde(default)]
     pub pdef: Vec<bool>,
+    /// run the multi-threaded read-only storm on this (read-only) case
+    #[serde(default)]
+    pub storm: bool,
     /// runs with reference values emitted by TLC (spec -> implementation)
     #[serde(default)]
     pub runs: Vec<Run>,
@@ -553,6 +638,9 @@ pub struct Stats {
     pub exec_runs: usize,
     pub second_pass: usize,
     pub setup_leaked: usize,
+    pub storm_blocks: usize,
+    pub storm_ops: usize,
+    pub storm_fail: usize,
     pub setup_panics: usize,
     pub fetch_ctx: [usize; 3],
     pub twin_blocks: usize,
